@@ -16,6 +16,7 @@ import (
 )
 
 type World struct {
+	reachCache map[[2]*ssa.Function]bool
 	repo           string
 	fset           *token.FileSet
 	pkgs           []*packages.Package
@@ -875,4 +876,244 @@ func (w *World) fieldFuncCandidate(v ssa.Value) *ssa.Function {
 		return nil
 	}
 	return w.fieldFuncs[key]
+}
+
+// mechanismCone: zero-annotation contracts "writeframe" for Execute / WithConfig of every mechanism
+// type and for every in-repo function statically reachable from them (static calls, closures, and
+// interface calls on interfaces declared under internal/rules, resolved to their in-repo
+// implementations). prop is attached to each synthesized contract.
+func (w *World) mechanismCone(prop string) []*Contract {
+	mechPkgs := []string{"authenticators", "authorizers", "contextualizers", "finalizers", "errorhandlers"}
+	excluded := func(path string) bool {
+		for _, x := range []string{"/internal/handler", "/internal/cache", "/internal/x/errorchain", "/mocks", "/testsupport", "/internal/accesscontext"} {
+			if strings.Contains(path, x) {
+				return true
+			}
+		}
+		return false
+	}
+	var roots []*ssa.Function
+	for _, mp := range mechPkgs {
+		path := modulePath + "/internal/rules/mechanisms/" + mp
+		p := w.pkgByPath[path]
+		if p == nil {
+			continue
+		}
+		for _, name := range p.Scope().Names() {
+			tn, ok := p.Scope().Lookup(name).(*types.TypeName)
+			if !ok || tn.IsAlias() {
+				continue
+			}
+			named, ok := tn.Type().(*types.Named)
+			if !ok {
+				continue
+			}
+			if _, isIface := named.Underlying().(*types.Interface); isIface {
+				continue
+			}
+			for _, recv := range []types.Type{named, types.NewPointer(named)} {
+				ms := w.prog.MethodSets.MethodSet(recv)
+				ex := ms.Lookup(p, "Execute")
+				wc := ms.Lookup(p, "WithConfig")
+				if ex == nil || wc == nil {
+					continue
+				}
+				for _, sel := range []*types.Selection{ex, wc} {
+					if fn := w.prog.MethodValue(sel); fn != nil && fn.Blocks != nil && fn.Synthetic == "" {
+						roots = append(roots, fn)
+					}
+				}
+			}
+		}
+	}
+	return w.coneContracts(roots, excluded, prop, func(c *Contract) { c.WriteFrame = true })
+}
+
+// rootsByPattern: in-repo functions whose key contains one of the substrings.
+func (w *World) rootsByPattern(pats []string) []*ssa.Function {
+	var out []*ssa.Function
+	for _, k := range sortedKeys(w.funcs) {
+		fn := w.funcs[k]
+		if fn.Blocks == nil || !strings.HasPrefix(fnPkgPath(fn), modulePath) {
+			continue
+		}
+		for _, p := range pats {
+			if strings.Contains(k, p) {
+				out = append(out, fn)
+				break
+			}
+		}
+	}
+	return out
+}
+
+// coneContracts: synthesized contracts for the roots and every in-repo function statically reachable
+// from them (static calls, closures, interface calls on interfaces declared under internal/rules
+// resolved to their in-repo implementations).
+func (w *World) coneContracts(roots []*ssa.Function, excluded func(string) bool, prop string, setup func(*Contract)) []*Contract {
+	seen := map[*ssa.Function]bool{}
+	var order []*ssa.Function
+	var visit func(fn *ssa.Function, depth int)
+	ifaceImpls := map[string][]*ssa.Function{}
+	implsOf := func(it types.Type, m *types.Func) []*ssa.Function {
+		key := typeKey(it) + "." + m.Name()
+		if r, ok := ifaceImpls[key]; ok {
+			return r
+		}
+		var out []*ssa.Function
+		iface, ok := it.Underlying().(*types.Interface)
+		if ok {
+			for _, path := range sortedKeys(w.pkgByPath) {
+				if !strings.HasPrefix(path, modulePath) || excluded(path) {
+					continue
+				}
+				p := w.pkgByPath[path]
+				for _, name := range p.Scope().Names() {
+					tn, ok := p.Scope().Lookup(name).(*types.TypeName)
+					if !ok || tn.IsAlias() {
+						continue
+					}
+					named, ok := tn.Type().(*types.Named)
+					if !ok || named.TypeParams().Len() > 0 {
+						continue
+					}
+					if _, isIface := named.Underlying().(*types.Interface); isIface {
+						continue
+					}
+					for _, recv := range []types.Type{named, types.NewPointer(named)} {
+						if !types.Implements(recv, iface) {
+							continue
+						}
+						if sel := w.prog.MethodSets.MethodSet(recv).Lookup(m.Pkg(), m.Name()); sel != nil {
+							if fn := w.prog.MethodValue(sel); fn != nil && fn.Blocks != nil && fn.Synthetic == "" {
+								out = append(out, fn)
+							}
+						}
+						break
+					}
+				}
+			}
+		}
+		ifaceImpls[key] = out
+		return out
+	}
+	visit = func(fn *ssa.Function, depth int) {
+		if fn == nil || seen[fn] || fn.Blocks == nil || depth > 12 {
+			return
+		}
+		path := fnPkgPath(fn)
+		if !strings.HasPrefix(path, modulePath) || excluded(path) {
+			return
+		}
+		seen[fn] = true
+		order = append(order, fn)
+		for _, b := range fn.Blocks {
+			for _, in := range b.Instrs {
+				var cc *ssa.CallCommon
+				switch x := in.(type) {
+				case *ssa.Call:
+					cc = &x.Call
+				case *ssa.Defer:
+					cc = &x.Call
+				case *ssa.Go:
+					cc = &x.Call
+				case *ssa.MakeClosure:
+					visit(x.Fn.(*ssa.Function), depth+1)
+				}
+				if cc == nil {
+					continue
+				}
+				if cc.IsInvoke() {
+					it := cc.Value.Type()
+					if n, ok := it.(*types.Named); ok && n.Obj().Pkg() != nil {
+						ip := n.Obj().Pkg().Path()
+						if strings.HasPrefix(ip, modulePath+"/internal/rules") && !strings.HasSuffix(ip, "/internal/rules/rule") {
+							for _, impl := range implsOf(it, cc.Method) {
+								visit(impl, depth+1)
+							}
+						}
+					}
+					continue
+				}
+				if f, ok := cc.Value.(*ssa.Function); ok {
+					visit(f, depth+1)
+				}
+				for _, a := range cc.Args {
+					if f, ok := a.(*ssa.Function); ok {
+						visit(f, depth+1)
+					}
+				}
+			}
+		}
+	}
+	for _, r := range roots {
+		visit(r, 0)
+	}
+	var out []*Contract
+	for _, fn := range order {
+		key := fnKey(fn)
+		if len(fn.TypeArgs()) > 0 {
+			continue // generic instantiations are covered where they are inlined
+		}
+		if _, ok := w.funcs[key]; !ok {
+			w.funcs[key] = fn
+		} else if w.funcs[key] != fn {
+			continue
+		}
+		c := &Contract{Key: key, Kind: "func", Pkg: fnPkgPath(fn), File: "(synthesized: zero-annotation sweep)", Props: []string{prop}, LoopInv: map[int][]Clause{}, InRepo: true}
+		if own := w.ct.Funcs[key]; own != nil {
+			c.LoopInv = own.LoopInv
+			c.Requires = own.Requires
+			c.Decreases = own.Decreases
+		}
+		setup(c)
+		out = append(out, c)
+	}
+	return out
+}
+
+func (w *World) inRepoPkg(path string) bool { return strings.HasPrefix(path, modulePath) }
+
+// reaches: can a call of from end up calling to (static in-repo call graph incl. closures made
+// along the way)? Used to recognise recursion for termination obligations.
+func (w *World) reaches(from, to *ssa.Function) bool {
+	if from == to {
+		return true
+	}
+	if w.reachCache == nil {
+		w.reachCache = map[[2]*ssa.Function]bool{}
+	}
+	k := [2]*ssa.Function{from, to}
+	if r, ok := w.reachCache[k]; ok {
+		return r
+	}
+	seen := map[*ssa.Function]bool{}
+	var visit func(fn *ssa.Function) bool
+	visit = func(fn *ssa.Function) bool {
+		if fn == to {
+			return true
+		}
+		if fn == nil || seen[fn] || fn.Blocks == nil || !strings.HasPrefix(fnPkgPath(fn), modulePath) {
+			return false
+		}
+		seen[fn] = true
+		for _, b := range fn.Blocks {
+			for _, in := range b.Instrs {
+				switch x := in.(type) {
+				case ssa.CallInstruction:
+					if f := x.Common().StaticCallee(); f != nil && visit(f) {
+						return true
+					}
+				case *ssa.MakeClosure:
+					if visit(x.Fn.(*ssa.Function)) {
+						return true
+					}
+				}
+			}
+		}
+		return false
+	}
+	r := visit(from)
+	w.reachCache[k] = r
+	return r
 }
